@@ -3,13 +3,20 @@ package basic
 import enc "github.com/named-data/ndnd/std/encoding"
 
 // NameTrie is a simple implementation of a Name trie (node/subtree) used for PIT and FIB.
-// It is slow due to the usage of String(). Subject to change when it explicitly affects performance.
 type NameTrie[V any] struct {
 	val V
 	key string
 	par *NameTrie[V]
 	dep int
 	chd map[string]*NameTrie[V]
+}
+
+// trieKey is the key of a component among its siblings: its encoded bytes, so
+// that two components share a key only if they are equal. (The URI form is not
+// injective: version, segment and other number components print as decimal
+// numbers, so value 01 and value 00 01 both read "v=1".)
+func trieKey(c enc.Component) string {
+	return string(c.Bytes())
 }
 
 // Value returns the value stored in the node.
@@ -27,7 +34,7 @@ func (n *NameTrie[V]) ExactMatch(name enc.Name) *NameTrie[V] {
 	if len(name) <= n.dep {
 		return n
 	}
-	c := name[n.dep].String()
+	c := trieKey(name[n.dep])
 	if ch, ok := n.chd[c]; ok {
 		return ch.ExactMatch(name)
 	} else {
@@ -41,7 +48,7 @@ func (n *NameTrie[V]) PrefixMatch(name enc.Name) *NameTrie[V] {
 	if len(name) <= n.dep {
 		return n
 	}
-	c := name[n.dep].String()
+	c := trieKey(name[n.dep])
 	if ch, ok := n.chd[c]; ok {
 		return ch.PrefixMatch(name)
 	} else {
@@ -68,7 +75,7 @@ func (n *NameTrie[V]) MatchAlways(name enc.Name) *NameTrie[V] {
 	if len(name) <= n.dep {
 		return n
 	}
-	c := name[n.dep].String()
+	c := trieKey(name[n.dep])
 	ch, ok := n.chd[c]
 	if !ok {
 		ch = newTrieNode(c, n)
@@ -82,7 +89,7 @@ func (n *NameTrie[V]) FirstSatisfyOrNew(name enc.Name, pred func(V) bool) *NameT
 	if len(name) <= n.dep || pred(n.val) {
 		return n
 	}
-	c := name[n.dep].String()
+	c := trieKey(name[n.dep])
 	ch, ok := n.chd[c]
 	if !ok {
 		ch = newTrieNode(c, n)
